@@ -1,2 +1,16 @@
 import Driver.C13
-def main : IO Unit := Driver.mainLoop fun _ j => Driver.C13.runCase j
+open Lean
+
+/-- the line protocol of `Driver.mainLoop`, flushing after every answer: the C13 executor keeps this binary running as a child process
+    (the executable specification as an oracle) and waits for each answer before it sends the next case -/
+partial def loopFlush (h out : IO.FS.Stream) : IO Unit := do
+  let line ← h.getLine
+  if line.isEmpty then return ()
+  let l := line.trimAscii.toString
+  if !l.isEmpty then
+    out.putStrLn (Driver.runLine (fun _ j => Driver.C13.runCase j) l)
+    out.flush
+  loopFlush h out
+
+def main : IO Unit := do
+  loopFlush (← IO.getStdin) (← IO.getStdout)
